@@ -486,7 +486,10 @@ def clear(self, retry=False):
 T['cull'] = '''
 def cull(self, retry=False):
     now = time.time()
-    count = self.expire(now, retry=retry)
+    if retry:
+        count = self.expire(now, retry=True)
+    else:
+        count = self.expire(now)
     select_policy = EVICTION_POLICY[self.eviction_policy]['cull']
     if select_policy is None:
         return __Hk_nonepolicy__
